@@ -117,8 +117,8 @@ def _fidelity_witness(p, hh, rng):
                     if isinstance(e, core.SymBool):
                         vals.append(None)
                         continue
-                    if isinstance(e, core.SR) and any(v.startswith(('ang!', 'c_opq_', 's_opq_')) for v in core.vars_of(e.t)):
-                        vals.append(None)       # depends on the value symbol of an inverse-trig result (only loosely tied)
+                    if isinstance(e, core.SR) and any(v.startswith(('ang!', 'c_opq_', 's_opq_', 'rng_')) for v in core.vars_of(e.t)):
+                        vals.append(None)       # depends on an inverse-trig value symbol (loosely tied) or on an RNG draw (not imposable)
                         continue
                     val = solve.model_value(m, core.lift(e))
                     vals.append(None if val is None else builtins.float(val))
@@ -294,6 +294,16 @@ def _sym_worker(pid, hname, tier, conn, quick_ms, roots=None):
                     st2, env2, _ = solve.solve_inproc(cons + extra, tmo, want_vars(p))
                     if st2 == 'sat':
                         alts.append(_envjson(fix_angles(env2, angle_info(p))))
+                    ab = algcert.split_equality(o['bad']) if o['kind'] == 'check' else None
+                    if ab is not None:
+                        # a counterexample with a margin well above the replay tolerance
+                        x_, y_ = ab
+                        tolr = z3.RealVal(str(getattr(h, 'conc_tol', 1e-6) * 100))
+                        ay_ = z3.If(y_ >= 0, y_, -y_)
+                        robust = z3.Or(x_ - y_ > tolr * (1 + ay_), y_ - x_ > tolr * (1 + ay_))
+                        st3, env3, _ = solve.solve_inproc(base + [robust], max(tmo, 2000), want_vars(p))
+                        if st3 == 'sat':
+                            alts.insert(0, _envjson(fix_angles(env3, angle_info(p))))
                     rec['alt_envs'] = alts
                 elif st == 'unknown':
                     rec['smt2'] = solve.to_smt2(cons)
